@@ -319,6 +319,31 @@ func runPackCase(base string, c *pCase) (obs *pObs, infra string) {
 			}
 		}
 	}()
+	// a panic leaves fields unset: the judge needs well-formed records
+	if obs.Out == nil {
+		obs.Out = []uEntry{}
+	}
+	if obs.Meta.Files == nil {
+		obs.Meta.Files = [][]string{}
+	}
+	if obs.Meta.WfSilent == nil {
+		obs.Meta.WfSilent = []int{}
+	}
+	if obs.RT.Fs == nil {
+		obs.RT.Fs = []arena.PN{}
+	}
+	if obs.RT.St == "" {
+		obs.RT.St = "none"
+	}
+	if obs.Opts.Allow == nil {
+		obs.Opts.Allow = [][]string{}
+	}
+	if obs.Opts.AllowRel == nil {
+		obs.Opts.AllowRel = [][]string{}
+	}
+	if obs.Lines == nil {
+		obs.Lines = []string{}
+	}
 	return obs, ""
 }
 
